@@ -1,8 +1,10 @@
 (** LimitSel - which active_connection_id_limit a client advertises and which one its
     connIDManager enforces (connection.go newClientConnection: protocol.MaxActiveConnectionIDs on
     the wire, no SetConnectionIDLimit; u_connection.go newUClientConnection:
-    SetConnectionIDLimit(params.ActiveConnectionIDLimit) with the spec's value, 0 if the spec
-    has no such parameter). Definitions only. *)
+    SetConnectionIDLimit(params.ActiveConnectionIDLimit) where params is the record read from the
+    spec's wire values, with the protocol default 2 for a parameter the spec leaves out - since
+    /repo 7263726; before, 0). The call's argument is what the peer reads off the wire.
+    Definitions only. *)
 From Coq Require Import List ZArith Bool.
 From V Require Import Gen.Params Lib.Hex ConnIDs.Model.
 Import ListNotations.
@@ -17,7 +19,7 @@ Definition wire_limit (src : limit_source) : Z :=
   match src with LPlain => MaxActiveConnectionIDs | LSpec (Some v) => v | LSpec None => 2 end.
 
 Definition limit_call (src : limit_source) : list mop :=
-  match src with LPlain => [] | LSpec (Some v) => [MSetLimit v] | LSpec None => [MSetLimit 0] end.
+  match src with LPlain => [] | LSpec v => [MSetLimit (wire_limit (LSpec v))] end.
 
 Definition limit_init : cid := [1; 2; 3; 4].
 
